@@ -83,6 +83,16 @@ CHECKS = {
    text="Scalers and whiteners of the real code are fitted on hostile matrices (offsets to 1e9, spreads to 1e-6, constant/zero columns, zero rows, n from 1, f32/f64) and judged on the training matrix and on unseen rows against the normalisation the property states and against the affine map read off their accessors; all matrices with n<=3, p<=2 over {-1,0,1,2} are enumerated for every variant; empty training data must be rejected.",
    note="Trusts the harness statistics; ill-conditioned columns (tolerance > 0.02) are skipped and counted; columns inside the code's absolute constant-guard accept either outcome. The rare rotated-singular-plane fault of the external linfa-linalg SVD is a recorded known finding with a discriminating signature.",
    ref="DESIGN.md §5 C16"),
+ "C07": dict(
+   technique="runtime monitor: brute-force neighbour oracle (own L1/L2/Linf/Lp formulas in f64) for k-nearest and range queries of the three index kinds, cross-kind set equality incl. on-radius points, malformed-input error checks; exhaustive small 1-D/2-D scopes; child processes isolate the external kd-tree's stack overflow",
+   text="Every answer of linear scan, k-d tree and ball tree is judged: count = min(k,n), distinct in-range indices, coordinates bit-equal to the stored row, ascending order, distances equal to the k smallest true distances (ties free), range results containing everything strictly inside and nothing strictly outside, the kinds agreeing exactly (ball tree up to its rounding floor). All 1-D sequences over {0..3} (n<=4) and all 3x3-grid sequences (n<=3, 4 thorough) x queries x k x radius classes x leaf sizes x 5 metrics are enumerated; lattices and hostile clouds up to n=5000, dim 16 sampled.",
+   note="Trusts the harness distance formulas; floors 32(dim+4)eps*d (>= 96x above clean residuals). The external kdtree 0.6 crate's infinite recursion on adjacent-float batches is a recorded known finding (observed only in a dedicated child-process family; in-process families skip the k-d tree for such batches).",
+   ref="DESIGN.md §5 C07"),
+ "C11": dict(
+   technique="runtime monitor: KKT/optimality oracle in f64 - OLS residual orthogonality and SSE vs own Householder-QR solution; elastic net / lasso / ridge / multi-task: exact 1-D (block) minimiser per coordinate and for the intercept, joint suboptimality vs the harness's dual-certified optimum, exact zeros under the l1 threshold, duality-gap sanity; exhaustive small lattices",
+   text="Each fit of the real estimators (offsets, column scales 1e-9..1e9, constant/collinear columns, 1-3 targets, f32/f64, five layouts) is judged against the optimality conditions of the documented objective: no coordinate or intercept move may lower the objective by more than reported_gap/n plus a noise floor, coefficients under the l1 threshold are exactly zero, the gap is non-negative. OLS and single-task lattices are enumerated completely; the T=2 multi-task lattice is sampled.",
+   note="Trusts the harness objective arithmetic (floor 4096*eps*S, >= 2700x above clean residuals). Runs that exhaust the iteration budget without a provably ample budget, and ridge/penalty-0 runs where linfa's gap is vacuous, are judged against the configured tolerance or inconclusive.",
+   ref="DESIGN.md §5 C11"),
 }
 
 NOT_YET = {}
